@@ -77,6 +77,29 @@ type node struct {
 	RBind    []chn      `json:"rbind,omitempty"`
 	Class    *classSpec `json:"class,omitempty"` // non-nil: task role
 	Unknown  bool       `json:"unknown,omitempty"`
+	// task roles with the same non-empty class key (within a tree and its prelude) load one class
+	ClassKey string `json:"ckey,omitempty"`
+}
+
+func cloneTree(n *node) *node {
+	var cp *node
+	b, _ := json.Marshal(n)
+	json.Unmarshal(b, &cp)
+	return cp
+}
+
+func keyedClasses(n *node, out map[string]classSpec) {
+	if n == nil {
+		return
+	}
+	if n.Class != nil && n.ClassKey != "" {
+		if _, ok := out[n.ClassKey]; !ok {
+			out[n.ClassKey] = *n.Class
+		}
+	}
+	for _, c := range n.Children {
+		keyedClasses(c, out)
+	}
 }
 
 func emitRole(b *strings.Builder, ind string, n *node, first bool) {
@@ -155,12 +178,21 @@ func blankNames(n *node) {
 
 // renameSpec gives the workflow and its classes names that are unique in the run (position idx),
 // rebuilds the YAML documents and the task list from the tree.
-func renameSpec(sp *simSpec, idx int) {
+func renameSpec(sp *simSpec, idx int, base int) {
 	sp.Wf = fmt.Sprintf("w%d", idx)
 	k := 0
+	keyed := map[string]classSpec{} // the first role with a key (prelude first) defines the class
+	if sp.Prelude != nil {
+		keyedClasses(sp.Prelude.Tree, keyed)
+	}
+	keyedClasses(sp.Tree, keyed)
 	var ren func(n *node)
 	ren = func(n *node) {
-		if n.Class != nil {
+		if n.Class != nil && n.ClassKey != "" {
+			c := keyed[n.ClassKey]
+			c.Name = fmt.Sprintf("k%d_s%s", base, n.ClassKey)
+			n.Class = &c
+		} else if n.Class != nil {
 			n.Class.Name = fmt.Sprintf("k%d_%d", idx, k)
 			k++
 		}
@@ -217,8 +249,16 @@ func childMain(specFile, resFile, simDir string) {
 		b, _ := json.Marshal(map[string]interface{}{"start": start, "obs": ob})
 		out.Write(append(b, '\n'))
 	}
-	for _, sp := range specs {
-		ob := runSpec(sim, sp, func(pre simObs) { emit(true, pre) })
+	// all workflows of the batch are loaded (and their classes registered) before the first round:
+	// loading re-reads the task classes, which would wipe whatever an earlier round left in them
+	pre := make([]preloaded, len(specs))
+	for i, sp := range specs {
+		if sp.Mode != "nodesc" {
+			pre[i] = preload(sim, sp)
+		}
+	}
+	for i, sp := range specs {
+		ob := runSpec(sim, sp, pre[i], func(pre simObs) { emit(true, pre) })
 		emit(false, ob)
 	}
 	out.Close()
@@ -232,16 +272,29 @@ func toMilli(v float64) int64 {
 	return int64(v*1000 + 0.5)
 }
 
-func runSpec(sim *simcore.Sim, sp simSpec, started func(simObs)) (ob simObs) {
-	ob.ExecCpu = toMilli(viper.GetFloat64("executorCPU"))
-	ob.ExecMem = toMilli(viper.GetFloat64("executorMemory"))
-	envId := uid.New()
+type preloaded struct {
+	w     workflow.Role
+	envId uid.ID
+	err   error
+}
+
+func preload(sim *simcore.Sim, sp simSpec) (p preloaded) {
+	p.envId = uid.New()
+	envId := p.envId
 	empty := func() gera.Map[string, string] { return gera.MakeMap[string, string]() }
 	pa := workflow.NewParentAdapter(func() uid.ID { return envId }, func() uint32 { return 0 }, empty, empty, empty, func(event.Event) {})
+	p.w, p.err = workflow.Load(sp.Wf, pa, sim.Taskman, map[string]string{}, map[string]string{})
+	return
+}
+
+func runSpec(sim *simcore.Sim, sp simSpec, pre preloaded, started func(simObs)) (ob simObs) {
+	ob.ExecCpu = toMilli(viper.GetFloat64("executorCPU"))
+	ob.ExecMem = toMilli(viper.GetFloat64("executorMemory"))
+	envId := pre.envId
 
 	var ds task.Descriptors
 	if sp.Mode != "nodesc" {
-		w, err := workflow.Load(sp.Wf, pa, sim.Taskman, map[string]string{}, map[string]string{})
+		w, err := pre.w, pre.err
 		if err != nil {
 			ob.Err = "workflow load: " + err.Error()
 			return
@@ -377,9 +430,20 @@ func runSpec(sim *simcore.Sim, sp simSpec, started func(simObs)) (ob simObs) {
 			ob.Accepted[i] = true
 			for _, ti := range c.Tasks {
 				t := obsTask{Desc: -1, Agent: ti.AgentID.Value}
-				for cn, di := range classIdx {
-					if strings.Contains(ti.Name, "/tasks/"+cn+"@") {
-						t.Desc = di
+				// which descriptor: the deployment outcome says so (several roles may load one class);
+				// a task the outcome does not know is matched by its class name
+				if r, ok := deployedRole[ti.TaskID.Value]; ok {
+					for i, o := range ob.Order {
+						if o == r {
+							t.Desc = i
+						}
+					}
+				}
+				if t.Desc < 0 {
+					for cn, di := range classIdx {
+						if strings.Contains(ti.Name, "/tasks/"+cn+"@") {
+							t.Desc = di
+						}
 					}
 				}
 				if t.Desc < 0 {
